@@ -271,6 +271,24 @@ CLAIMED["C16"] = (
     "DESIGN.md §4 C16",
 )
 
+CLAIMED["C07"] = (
+    "Every diagnostic made by Error.from_node is a real token position — an existing line, a byte column inside it, a token starting "
+    "there — proved for all files under the explicit assumption that mypy positions a node at its first token (from_node_valid); all "
+    "three output formats print that column + 1 (never_zero_based). FURB113's 'previous statement' is proved to be a statement of the "
+    "same block. Exactly three checks compute a position by hand, pinned by `decide` against a table regenerated from the source. For "
+    "FURB180 and FURB106 the hand arithmetic is characterised exactly: refuted in general (witnesses: column -9; line/column from "
+    "different lines), proved when keyword, `=` and value are adjacent resp. when the attribute shares the receiver's first line; the "
+    "FURB106 repair (today's code, field probed by execution) is proved for all layouts (tabs_fixed/tabs_current). The assumption is "
+    "enforced by a tokenizer oracle over every diagnostic of all 93 checks under 12 ast-preserving layout transforms (continuations, "
+    "parenthesised multi-line forms, tabs, non-ASCII, CRLF/CR/BOM/latin-1) and by correspondence on exhaustively enumerated layouts.",
+    COMMON_NOTE
+    + "Trusted/assumed: mypy's position invariant (oracle-validated only); Python 3.12 tokenize as the meaning of 'token'; columns "
+    "judged as UTF-8 byte offsets; the ast scan behind Generated/Positions.lean; the layout transforms are validated per variant by "
+    "ast.dump, not proved. Two recorded findings (FURB180 keyword position; FURB106 with an NFKC-spelled attribute).",
+    "layout arithmetic and invariant proofs in Lean 4; decide +kernel over a generated table; tokenizer + metamorphic oracle; exhaustive layout correspondence",
+    "DESIGN.md §4 C07",
+)
+
 NOT_YET = "check not built yet in this round (work in progress; see DESIGN.md §8 order of work)"
 
 
